@@ -95,15 +95,25 @@ def make_chunk_decoder_job(variant, tier):
     return job
 
 
-def drive(ex, fn, args, st0, pcs, ghost, max_calls, item_of, src_key='#src'):
-    """FramedRead's documented loop over a complete input: call decode until it returns Ok(None) without consuming anything, or Err.
-    item_of(path) -> (kind, value): kind in 'some' | 'none' | 'err' (may fork by returning a list of (cond, kind, value)).
-    Yields (path, [released values], end) with end in 'quiescent' | 'err' | 'calls' | other path status."""
+def drive(ex, fn, args, st0, pcs, ghost, max_calls, item_of, src_key='#src', nseg=1, eof=False):
+    """tokio-util FramedRead's documented loop, with the transport delivering the input in `nseg` consecutive non-empty segments
+    (symbolic cut points) and then going quiet: after each read, decode is called until it returns Ok(None); Ok(None) makes the
+    adapter read again; the first Err ends the stream.  item_of(ex, path) -> [(cond, kind, value)], kind 'some' | 'none' | 'err'.
+    Returns [(path, [released values], end)], end in 'quiet' | 'err' | 'calls' | a non-return path status."""
+    whole = st0[src_key]
+    total = whole.len
+    cuts = [z3.BitVec('cut%d' % i, 64) for i in range(1, nseg)]
+    bounds = [bv64(0)] + cuts + [total]
+    cut_pcs = [z3.ULT(bounds[i], bounds[i + 1]) for i in range(len(bounds) - 1)] if nseg > 1 else []
+    for i, cterm in enumerate(cuts):
+        ex.inputs['cut%d' % (i + 1)] = (cterm, 'usize')
+    st = dict(st0)
+    st[src_key] = whole.with_(len=bounds[1])
     out = []
-    first = ex.run(fn, args, pcs, ghost=ghost, st0=dict(st0))
-    work = [(p, [], 1, st0[src_key]) for p in first]
+    first = ex.run(fn, args, list(pcs) + cut_pcs, ghost=ghost, st0=st)
+    work = [(p, [], 1, 1) for p in first]
     while work:
-        p, rel, ncall, before = work.pop()
+        p, rel, ncall, seg = work.pop()
         if p.status != 'return':
             out.append((p, rel, p.status))
             continue
@@ -118,17 +128,23 @@ def drive(ex, fn, args, st0, pcs, ghost, max_calls, item_of, src_key='#src'):
             if kind == 'err':
                 out.append((q, rel, 'err'))
                 continue
+            nseg_now = seg
+            if kind == 'none':
+                # the adapter reads: the next segment is appended to what is left in the buffer
+                if seg >= nseg:
+                    out.append((q, rel, 'quiet'))
+                    continue
+                cur = q.st[src_key]
+                if not z3.eq(cur.arr, whole.arr) or ex.check(q.pcs + [cur.off + cur.len != bounds[seg]])[0]:
+                    raise Inconclusive('read buffer is not a contiguous window of the input after decode returned None')
+                q.st[src_key] = cur.with_(len=cur.len + (bounds[seg + 1] - bounds[seg]))
+                nseg_now = seg + 1
             rel2 = rel + [val] if kind == 'some' else rel
-            after = q.st[src_key]
-            unchanged = z3.is_true(z3.simplify(z3.And(after.len == before.len, after.off == before.off)))
-            if kind == 'none' and unchanged:
-                out.append((q, rel2, 'quiescent'))
-                continue
             if ncall >= max_calls:
                 out.append((q, rel2, 'calls'))
                 continue
             for r in ex.resume(q, fn, args):
-                work.append((r, rel2, ncall + 1, after))
+                work.append((r, rel2, ncall + 1, nseg_now))
     return out
 
 
@@ -200,7 +216,8 @@ def framed_spec(decoder, cfg, expect, cand_names, extra_cfg=None):
         src = m.get('src')
         if not isinstance(src, dict) or src['len'] > len(src['bytes']):
             return None
-        spec = {'entry': 'framed', 'decoder': decoder, 'cfg': dict(cfg), 'src': src['bytes'], 'opens': m.get('#opens', []), 'expect': expect, 'cuts': m.get('cuts', [])}
+        spec = {'entry': 'framed', 'decoder': decoder, 'cfg': dict(cfg), 'src': src['bytes'], 'opens': m.get('#opens', []), 'expect': expect,
+                'cuts': [m[k] for k in sorted(m) if k.startswith('cut') and isinstance(m[k], int)]}
         for k, v in (extra_cfg or {}).items():
             if isinstance(m.get(v), list):
                 spec['cfg'][k] = m[v]
@@ -225,7 +242,7 @@ def payload_inputs(prefix, stream):
     return {'%s%d' % (prefix, i): Buf('slice', a, o, l) for i, (a, o, l) in enumerate(stream.payloads)}
 
 
-def make_ss_tcp_job(N, kind, mode, tier):
+def make_ss_tcp_job(N, kind, mode, tier, nseg=1):
     legacy = not kind.startswith('Aead2022')
 
     def job(ctx):
@@ -255,7 +272,7 @@ def make_ss_tcp_job(N, kind, mode, tier):
         gname, oname = ('resp', 'req') if mode == 'Client' else ('req', 'resp')
         names = [['%s%d' % (gname, i) for i in range(len(genuine.payloads))]] + ([['%s%d' % (oname, i) for i in range(len(genuine.payloads))]] if legacy else [])
         rp = framed_spec('ss_tcp', {'N': N, 'kind': kind, 'mode': mode}, 'not_prefix', names, {'own_salt': 'own_salt'})
-        results = drive(ex, case.fn, case.args, case.st0, pcs, {'sealed': req.entries + resp.entries}, 5, opt_item)
+        results = drive(ex, case.fn, case.args, case.st0, pcs, {'sealed': req.entries + resp.entries}, 4 + nseg + K, opt_item, nseg=nseg)
         full = 0
         nrel = 0
         for p, rel, end in results:
@@ -294,5 +311,6 @@ def jobs(prog, tier):
     js.append(('ss::ChunkDecoder::decode_payload[Aes128Gcm]', make_chunk_decoder_job('Aes128Gcm', tier), 900))
     for (N, kind) in ((16, 'Aes128Gcm'), (32, 'ChaCha20Poly1305'), (16, 'Aead2022Blake3Aes128Gcm'), (32, 'Aead2022Blake3Aes256Gcm'), (32, 'Aead2022Blake3ChaCha20Poly1305')):
         for mode in ('Server', 'Client'):
-            js.append(('ss::tcp::decode[N=%d,%s,%s]' % (N, kind, mode), make_ss_tcp_job(N, kind, mode, tier), 1200))
+            for nseg in (1, 2):
+                js.append(('ss::tcp::decode[N=%d,%s,%s,segments=%d]' % (N, kind, mode, nseg), make_ss_tcp_job(N, kind, mode, tier, nseg), 1200))
     return js
